@@ -34,9 +34,20 @@ from soundevent import data, io
 from mc.runner import Out, scratch_dir
 from mc.space import chunk, multisets, sequences, sequences_size
 from models import invariants as inv
-from props.common import DT, U, is_rejection, recording, term
+from props.common import DT, is_rejection, recording, term
+from props.common import U as _U
 
 ID = "C04"
+_UCACHE = {}
+
+
+def U(name):
+    u = _UCACHE.get(name)
+    if u is None:
+        u = _UCACHE[name] = _U(name)
+    return u
+
+
 RULE = (
     "one case = one input arrangement, run through the constructor, model_validate(dict), model_validate_json and "
     "(when the format can express it) an edited AOEF document given to io.load. clip_evaluation: every subset of "
